@@ -262,6 +262,32 @@ func (g *ggen) spanTable(rows int) {
 	g.feat["span-table"] = true
 }
 
+// visibilityNest writes hidden ancestors with visible descendants, block and inline level: everything is
+// laid out (all tokens stay in the normal flow), only the visible runs may be drawn.
+func (g *ggen) visibilityNest() {
+	r := g.r
+	fmt.Fprintf(&g.buf, `<div style="visibility:hidden;%s">`, g.breaks())
+	g.lines(1+r.Intn(2), false)
+	g.buf.WriteString(`<br>`)
+	// a visible inline inside the hidden block's own lines
+	fmt.Fprintf(&g.buf, `<span style="visibility:visible">%s</span> %s`, g.tok(), g.tok())
+	// a visible block with a hidden inline that has a visible inline inside, long enough to split across pages
+	g.buf.WriteString(`<div style="visibility:visible">`)
+	n := 1 + r.Intn(5)
+	for i := 0; i < n; i++ {
+		if i > 0 {
+			g.buf.WriteString(`<br>`)
+		}
+		fmt.Fprintf(&g.buf, `%s <span style="visibility:hidden">%s <span style="visibility:visible">%s</span></span>`, g.tok(), g.tok(), g.tok())
+	}
+	g.buf.WriteString(`</div>`)
+	if r.Bool() {
+		fmt.Fprintf(&g.buf, `<div style="visibility:collapse">%s</div>`, g.tok())
+	}
+	g.buf.WriteString(`</div>`)
+	g.feat["visibility"] = true
+}
+
 // positionedNest writes position:relative boxes (z-index auto) nested in each other, the inner ones also
 // creating stacking contexts: all text stays in the normal flow; what is exercised is the painting order
 // (stacking contexts inserted in the middle of their parent's list) — every run drawn exactly once.
@@ -285,7 +311,7 @@ func (g *ggen) positionedNest(depth int) {
 
 func (g *ggen) item(depth int, allowOOF bool) {
 	r := g.r
-	c := r.Intn(22)
+	c := r.Intn(24)
 	switch {
 	case c <= 4 || depth > 2: // paragraph
 		sp := r.P(1, 4)
@@ -346,6 +372,8 @@ func (g *ggen) item(depth int, allowOOF bool) {
 		g.footnotePara(2+r.Intn(5), 1+r.Intn(3), g.breaks())
 	case c == 19 || (c == 17 && !g.footnotes): // table with spans and tall cells
 		g.spanTable(1 + r.Intn(4))
+	case c == 22 || c == 23: // hidden ancestors with visible descendants
+		g.visibilityNest()
 	case c == 20 || c == 21: // nested positioned boxes / stacking contexts
 		g.positionedNest(0)
 	case c == 12 || c == 13: // table with header / footer groups
@@ -566,7 +594,7 @@ func runGeneral(m *mp.Model, r *rng.R, n int, fonts text.FontConfiguration, out 
 		var pages []*bo.PageBox
 		var rec *render.Rec
 		// the draw trace is judged on every fourth document and on every document with nested positioned boxes
-		draw := i%4 == 0 || doc.Features["positioned-nest"]
+		draw := i%4 == 0 || doc.Features["positioned-nest"] || doc.Features["visibility"]
 		ntok := len(doc.FlowOf)
 		LimitPages(8*(2*ntok+10) + 40)
 		o := render.Guard(8*time.Second, func() {
